@@ -141,6 +141,17 @@ pub fn run_one(h: H, ctx: &mut Ctx, b: &[u8]) -> Result<String, guard::Panicked>
                         for (k, v) in rep.options.other.iter() {
                             let _ = k.get_type().and_then(|x| x.decode(v)).map(|x| format!("{}", x));
                         }
+                        // ... and the service frames it for the raw socket (Ethernet + IPv4 + UDP with both checksums), to the
+                        // address it hands out or to broadcast, as recvdhcp() does
+                        if let Ok(chaddr) = <[u8; 6]>::try_from(&rep.chaddr[..]) {
+                            let dst_ip = if req.pkt.get_broadcast_flag() { Ipv4Addr::BROADCAST } else { rep.yiaddr };
+                            let src = erbium_net::addr::Inet4Addr::from(std::net::SocketAddrV4::new(Ipv4Addr::new(192, 168, 0, 1), 67));
+                            let dst = erbium_net::addr::Inet4Addr::from(std::net::SocketAddrV4::new(dst_ip, 68));
+                            let frame = erbium_net::packet::Fragment::new_udp4(src, &[2, 0, 0, 0, 0, 1], dst, &chaddr, erbium_net::packet::Tail::Payload(&wire)).flatten();
+                            if frame.len() < wire.len() + 42 {
+                                return "reply-frame-short".to_string();
+                            }
+                        }
                         // a conforming client must be able to read it back
                         match dhcppkt::parse(&wire) {
                             Ok(_) => "reply".to_string(),
@@ -322,7 +333,7 @@ pub fn run(seed: u64, thorough: bool, shards: u64, budget: u64) -> Leg {
     let mut total = Leg::new(
         "c05-decoders-inproc",
         "C05",
-        "for each handler (dhcp parse+handle_pkt+serialise+log decoders, dns query path, dns upstream-reply path, icmp6 parse, lldp from_wire, pktparser primitives): every offset of every valid seed set to 14 single-octet and 11 two-octet boundary values, every truncation point, grammar-built hostile packets, havoc mutants and random bytes up to 65535 octets; distinct = (handler, input kind, outcome class)",
+        "for each handler (dhcp parse+handle_pkt+serialise+raw-socket framing of the reply+log decoders; plus a sweep of the low half of the transaction id over a valid DISCOVER and REQUEST, dns query path, dns upstream-reply path, icmp6 parse, lldp from_wire, pktparser primitives): every offset of every valid seed set to 14 single-octet and 11 two-octet boundary values, every truncation point, grammar-built hostile packets, havoc mutants and random bytes up to 65535 octets; distinct = (handler, input kind, outcome class)",
     );
     total.floor = 10_000;
     let mut handles = Vec::new();
@@ -358,6 +369,25 @@ pub fn run(seed: u64, thorough: bool, shards: u64, budget: u64) -> Leg {
                         }
                         k += stride;
                     }
+                }
+            }
+            // 1b. everything a reply echoes from the request goes into its checksums: one valid DISCOVER and one valid REQUEST
+            // with every value of the low half of the transaction id (65 536 replies each, framed as the service frames them)
+            for (si, s) in corpus::dhcp_seeds().iter().take(2).enumerate() {
+                let mut lo = shard;
+                while lo < 65_536 {
+                    let mut b = s.clone();
+                    if b.len() >= 8 {
+                        b[6] = (lo >> 8) as u8;
+                        b[7] = lo as u8;
+                    }
+                    let t0 = std::time::Instant::now();
+                    let res = run_one(H::Dhcp, &mut ctx, &b);
+                    if matches!(&res, Ok(c) if c == "reply") {
+                        leg.count("dhcp_replies_framed_in_xid_sweep", 1);
+                    }
+                    observe(&mut leg, H::Dhcp, "xid-sweep", &format!("seed{} xid low half {:#06x}", si, lo), &b, res, t0.elapsed());
+                    lo += if thorough { shards } else { shards * 2 };
                 }
             }
             // 2. hostile grammar + havoc + random, seeded per shard
